@@ -281,6 +281,7 @@ func edgeHeaders(r *rand.Rand, ops []HOp) int {
 			oh.ScramblingControl = 4 + uint8(r.UintN(4))
 		}
 		h.OptionalHeader = oh
+		ops[k].Edge = true
 		n++
 	}
 	return n
